@@ -132,7 +132,7 @@ def long_frame(rng, gen: int, pid: int | None = None, size: int | None = None) -
     return w.f_ext(pid, sub, bytes(rng.randrange(256) for _ in range(max(0, size - 2)))), "ext_unknown"
 
 
-FOREIGN_ADDRS = (0x00, 0x01, 0x7F, 0x81, 0x8F, 0x91, 0xA0, 0xB1, 0xB2, 0xBF, 0xC0, 0xFF)
+FOREIGN_ADDRS = (0x00, 0x01, 0x55, 0x55, 0x7F, 0x81, 0x8F, 0x91, 0xA0, 0xAA, 0xAA, 0xAB, 0xB1, 0xB2, 0xBF, 0xC0, 0xFF)  # incl. the bytes the frame prefixes are made of
 
 
 def foreign_address_frame(rng, gen: int) -> tuple[bytes, str]:
